@@ -34,7 +34,7 @@ def one(d):
         r = subprocess.run(f"git -C /repo worktree add --detach {wt} {base} && git -C {wt} apply {d}/patch.diff", shell=True, capture_output=True, text=True)
         if r.returncode != 0:
             return name, "patch-does-not-apply", r.stderr[-200:]
-        extra = {"VERIF_KNOWN_FILE": "/verif/seeded/known_at_252b0c5.json", "VERIF_NO_RACE": "1"}
+        extra = {"VERIF_KNOWN_FILE": "/verif/seeded/known_at_252b0c5.json", "VERIF_NO_RACE": "1", "VERIF_C10_BASE252": "1"}
     try:
         env = dict(ENV, VERIF_REPO_DIR=wt, VERIF_OUT_DIR=out, **extra)
         r = subprocess.run(f"./check {pid} quick", shell=True, cwd="/verif", env=env, capture_output=True, text=True, timeout=1200)
